@@ -244,6 +244,86 @@ fn vm_fold(e: &Sexp, regs: &Sexp) -> Sexp {
     Sexp::app("pass", vec![value_sexp(&after)])
 }
 
+// ---------------------------------------------------------------------------------------------
+// independent reference for the documented machine semantics (64-bit arithmetic, written from
+// the property text; shares nothing with the code under test or with the Lean model)
+
+#[derive(Debug, Clone, Copy, PartialEq)]
+enum RefVal { I(i32), F(f32) }
+
+fn ref_eval(e: &Sexp) -> Result<Option<RefVal>, ()> {   // Ok(None) = no defined value; Err = not a closed numeric expression
+    let a = e.args();
+    Ok(Some(match e.head().ok_or(())? {
+        "i" => RefVal::I(a[0].as_i64() as i32),
+        "f" => RefVal::F(f32::from_bits(a[0].as_i64() as u32)),
+        "un" => {
+            let x = match ref_eval(&a[1])? { Some(x) => x, None => return Ok(None) };
+            match (a[0].as_atom(), x) {
+                ("neg", RefVal::I(x)) => RefVal::I((-(x as i64)) as i32),
+                ("not", RefVal::I(x)) => RefVal::I((x == 0) as i32),
+                ("bnot", RefVal::I(x)) => RefVal::I((-(x as i64) - 1) as i32),
+                ("castI", RefVal::I(x)) => RefVal::I(x),
+                ("castF", RefVal::I(x)) => RefVal::F(x as f32),
+                ("neg", RefVal::F(x)) => RefVal::F(-x),
+                ("castF", RefVal::F(x)) => RefVal::F(x),
+                ("castI", RefVal::F(x)) => RefVal::I(if x.is_nan() { 0 } else if x >= 2147483648.0 { i32::MAX } else if x <= -2147483649.0 { i32::MIN } else { x.trunc() as i64 as i32 }),
+                _ => return Err(()),
+            }
+        },
+        "bin" => {
+            let x = match ref_eval(&a[1])? { Some(x) => x, None => return Ok(None) };
+            let y = match ref_eval(&a[2])? { Some(y) => y, None => return Ok(None) };
+            match (x, y) {
+                (RefVal::I(x), RefVal::I(y)) => {
+                    let (xl, yl) = (x as i64, y as i64);
+                    let count = yl.rem_euclid(32) as u32;
+                    RefVal::I(match a[0].as_atom() {
+                        "add" => (xl + yl) as i32, "sub" => (xl - yl) as i32, "mul" => (xl * yl) as i32,
+                        "div" => { if y == 0 { return Ok(None); } (xl / yl) as i32 },
+                        "rem" => { if y == 0 { return Ok(None); } (xl % yl) as i32 },
+                        "eq" => (x == y) as i32, "ne" => (x != y) as i32, "lt" => (x < y) as i32, "le" => (x <= y) as i32, "gt" => (x > y) as i32, "ge" => (x >= y) as i32,
+                        "lor" => if x == 0 { y } else { x }, "land" => if x == 0 { 0 } else { y },
+                        "xor" => x ^ y, "band" => x & y, "bor" => x | y,
+                        "shl" => (xl << count) as i32, "shr" => (xl >> count) as i32, "ushr" => (((x as u32) as u64) >> count) as i32,
+                        _ => return Err(()),
+                    })
+                },
+                (RefVal::F(x), RefVal::F(y)) => match a[0].as_atom() {
+                    "add" => RefVal::F(x + y), "sub" => RefVal::F(x - y), "mul" => RefVal::F(x * y), "div" => RefVal::F(x / y),
+                    "eq" => RefVal::I((x == y) as i32), "ne" => RefVal::I((x != y) as i32), "lt" => RefVal::I((x < y) as i32), "le" => RefVal::I((x <= y) as i32), "gt" => RefVal::I((x > y) as i32), "ge" => RefVal::I((x >= y) as i32),
+                    _ => return Err(()),
+                },
+                _ => return Err(()),
+            }
+        },
+        "tern" => match ref_eval(&a[0])? { Some(RefVal::I(c)) => return ref_eval(if c != 0 { &a[1] } else { &a[2] }), Some(_) => return Err(()), None => return Ok(None) },
+        _ => return Err(()),
+    }))
+}
+
+/// oracle: the folded literal of a closed expression equals the documented machine semantics
+fn spec_fold(e: &Sexp) -> Sexp {
+    let want = match ref_eval(e) { Ok(w) => w, Err(()) => return Sexp::app("skip", vec![Sexp::atom("not-closed")]) };
+    // a ternary folds all of its branches first, so an undefined value in an untaken branch is still an error: skip those
+    let got = fold(e);
+    let op = match e.head() { Some("un") | Some("bin") => e.args()[0].as_atom().to_string(), Some(h) => h.to_string(), None => String::new() };
+    match (want, got.head()) {
+        (None, Some("err")) => Sexp::app("pass", vec![Sexp::atom("undefined-is-error")]),
+        (None, _) => fail("undefined-constant-expression-not-reported", format!("{} folds to {got}", expr_text(e))),
+        (Some(w), Some("ok")) => {
+            let lit = &got.args()[0];
+            let same = match (w, lit.head()) {
+                (RefVal::I(w), Some("i")) => lit.args()[0].as_i64() as i32 == w,
+                (RefVal::F(w), Some("f")) => lit.args()[0].as_i64() as u32 == canon_bits(w),
+                _ => false,
+            };
+            if same { Sexp::app("pass", vec![]) } else { fail(format!("fold-differs-from-machine-semantics op={op}"), format!("{} folds to {lit}, machine semantics give {w:?}", expr_text(e))) }
+        },
+        (Some(_), Some("err")) if e.head() == Some("tern") || format!("{e}").contains("(tern") => Sexp::app("skip", vec![Sexp::atom("error-in-untaken-branch")]),
+        (Some(w), _) => fail("defined-constant-expression-rejected", format!("{} = {w:?} but folding gives {got}", expr_text(e))),
+    }
+}
+
 /// `const T X = e; ins(X)` vs `ins(e)` through the real ANM compiler (TH12)
 fn inline_vs_named(ty: &str, e: &Sexp) -> Sexp {
     let text_e = expr_text(e);
@@ -321,6 +401,7 @@ impl Prop for C11 {
             for k in 0..n {
                 let (a, b) = if tier == Tier::Thorough && k < ints.len() * ints.len() { (ints[k / ints.len()], ints[k % ints.len()]) } else { (rng.int_boundary(), rng.int_boundary()) };
                 let e = Sexp::app("bin", vec![Sexp::atom(*name), Sexp::app("i", vec![Sexp::int(a)]), Sexp::app("i", vec![Sexp::int(b)])]);
+                out.push(Case::search(Sexp::app("specfold", vec![e.clone()])).tag(format!("spec-int-{name}")));
                 out.push(Case::corr(Sexp::app("fold", vec![e])).tag(format!("sweep-int-{name}")));
             }
         }
@@ -366,6 +447,7 @@ impl Prop for C11 {
             let ty = if rng.chance(2, 3) { Ty::Int } else { Ty::Float };
             let depth = 1 + rng.below(4) as u32;
             let e = Gen { rng, allow_regs: false, allow_math: false, const_bias: 100 }.expr(ty, depth);
+            out.push(Case::search(Sexp::app("specfold", vec![e.clone()])).tag("spec-expr"));
             out.push(Case::search(Sexp::app("inline", vec![Sexp::atom(if ty == Ty::Int { "i" } else { "f" }), e])).tag("named-vs-inline"));
         }
         // (e) const chains
@@ -391,6 +473,7 @@ impl Prop for C11 {
             Some("vm") => vm_fold(&a[0], &a[1]),
             Some("inline") => inline_vs_named(a[0].as_atom(), &a[1]),
             Some("chain") => chain(a),
+            Some("specfold") => spec_fold(&a[0]),
             _ => Sexp::atom("bad-case"),
         }
     }
